@@ -1313,6 +1313,9 @@ def binop(it, op, a, b):
         if op is ast.Sub:
             return SV(x - y, TReal)
         if op is ast.Mult:
+            f = getattr(it, "real_mul", None)
+            if f is not None and not z3.is_rational_value(z3.simplify(x)) and not z3.is_rational_value(z3.simplify(y)):
+                return SV(f(x, y), TReal)  # product of two unknowns abstracted by the contract (order axioms)
             return SV(x * y, TReal)
         if op is ast.Div:
             if not it.term_mode and not it.ctx.branch(y != 0, "divzero"):
